@@ -983,8 +983,9 @@ package consensus
 //@   trusted
 //@   modifies ms
 //@ func (*MidState).resolveFileContractElement
-//@   prop C01 C07
+//@   prop C01 C02 C07
 //@   asserts-only
+//@   exit-assert @marks-resolved has(ms.spends, fce.ID) && ms.spends[fce.ID] == txid
 //@   exit-assert @records-resolution fced.FileContractElement.ID == fce.ID && fced.FileContractElement.FileContract == fce.FileContract && fced.Resolved && fced.Valid == valid
 //@   trusted
 //@   modifies ms
@@ -997,10 +998,11 @@ package consensus
 //@   trusted
 //@   modifies acc
 //@ func ApplyBlock
-//@   prop C13
+//@   prop C13 C01
 //@   asserts-only
 //@   requires s.Network != nil
 //@   at call:MidState.ApplyBlock#1 assert @applies-the-block $arg1 == b && $arg2 == bs
+//@   at call:ApplyHeader#1 assert @state-hand-over $arg0.SiafundTaxRevenue == ms.siafundTaxRevenue && $arg0.Attestations == (ms.base.Attestations + len(ms.aes)) % 2^64 && $arg0.FoundationSubsidyAddress == ms.foundationSubsidy && $arg0.FoundationManagementAddress == ms.foundationManagement
 //@   at call:ApplyHeader#1 assert @header-path $arg1 == b.Header() && $arg2 == targetTimestamp && $arg0.Network == ms.base.Network && $arg0.Index == ms.base.Index && $arg0.PrevTimestamps == ms.base.PrevTimestamps && $arg0.Depth == ms.base.Depth && $arg0.ChildTarget == ms.base.ChildTarget && $arg0.OakTime == ms.base.OakTime && $arg0.OakTarget == ms.base.OakTarget && $arg0.TotalWork == ms.base.TotalWork && $arg0.Difficulty == ms.base.Difficulty && $arg0.OakWork == ms.base.OakWork
 // ApplyBlock: both transaction lists are applied in order; the miner payouts and the Foundation
 // subsidy become immature outputs with the block-derived IDs; an expiring v1 contract that was
@@ -1046,14 +1048,16 @@ package consensus
 // address, and a resolved contract pays out once: the final outputs on a renewal, the valid
 // outputs on a storage proof, the renter output and the missed host value on an expiration.
 //@ func (*MidState).spendSiacoinElement
-//@   prop C01 C07
+//@   prop C01 C02 C07
 //@   asserts-only
+//@   exit-assert @marks-spent has(ms.spends, sce.ID) && ms.spends[sce.ID] == txid
 //@   exit-assert @records-spend sced.SiacoinElement.ID == sce.ID && sced.SiacoinElement.SiacoinOutput == sce.SiacoinOutput && sced.SiacoinElement.MaturityHeight == sce.MaturityHeight && sced.SiacoinElement.StateElement.LeafIndex == sce.StateElement.LeafIndex && sced.Spent
 //@   trusted
 //@   modifies ms
 //@ func (*MidState).spendSiafundElement
-//@   prop C01 C07
+//@   prop C01 C02 C07
 //@   asserts-only
+//@   exit-assert @marks-spent has(ms.spends, sfe.ID) && ms.spends[sfe.ID] == txid
 //@   exit-assert @records-spend sfed.SiafundElement.ID == sfe.ID && sfed.SiafundElement.SiafundOutput == sfe.SiafundOutput && sfed.SiafundElement.ClaimStart == sfe.ClaimStart && sfed.SiafundElement.StateElement.LeafIndex == sfe.StateElement.LeafIndex && sfed.Spent
 //@   trusted
 //@   modifies ms
@@ -1102,8 +1106,9 @@ package consensus
 //@   trusted
 //@   modifies ms
 //@ func (*MidState).resolveV2FileContractElement
-//@   prop C01 C07
+//@   prop C01 C02 C07
 //@   asserts-only
+//@   exit-assert @marks-resolved has(ms.spends, fce.ID) && ms.spends[fce.ID] == txid
 //@   exit-assert @records-resolution fced.V2FileContractElement.ID == fce.ID && fced.V2FileContractElement.V2FileContract == fce.V2FileContract && fced.Resolution == res
 //@   trusted
 //@   modifies ms
